@@ -1,8 +1,8 @@
 (* C16 - Pruning predicates are exact on exact data and never reject a true hit. Statements only.
    All py_* functions are REGENERATED from the Python sources on every run. *)
-From Coq Require Import List ZArith QArith Qabs Bool String.
+From Coq Require Import List ZArith QArith Qabs Bool String Reals Qreals Qcanon.
 From BZ Require Import Base.PyVal Model.Hull Gen.PyFnHelpers Gen.PyFnGeometric Gen.PyFnTriangle
-  Theory.Predicates Theory.HullTheory.
+  Theory.Predicates Theory.HullTheory Base.Ops Base.RInst Model.Curve Model.LinErr Gen.PyGeometricIntersection Theory.Hom Theory.LinError Theory.LinErrorQc.
 Import ListNotations.
 Open Scope Q_scope.
 
@@ -96,3 +96,21 @@ Theorem C16_no_collision_means_a_separating_edge_direction : forall p1 p2,
   polygon_collide p1 p2 = false -> exists d, In d (edge_dirs p1 ++ edge_dirs p2) /\ is_separating d p1 p2 = true.
 Proof. exact polygon_collide_false_sound. Qed.
 Print Assumptions C16_no_collision_means_a_separating_edge_direction.
+
+(* linearization error bound: what the (model of) linearization_error computes bounds the true distance of the curve from
+   its chord interpolation, per coordinate, for every degree, every net and every s in [0,1]; the literals 2.0 and 0.125 are
+   read from the source.  (No analysis: discrete maximum principle + de Casteljau sandwich + closed form on quadratic nets.) *)
+Theorem C16_linearization_error_is_a_bound :
+  forall (v : list Qc) (s : R), (2 <= List.length v)%nat -> (0 <= s <= 1)%R ->
+  (Rabs (bernstein ROps (map Qc2R v) (1 - s) s - ((1 - s) * hd 0 (map Qc2R v) + s * last (map Qc2R v) 0))
+   <= Q2R linearization_multiplier * INR (List.length v - 1) * (INR (List.length v - 1) - 1) * Qc2R (worst_case v))%R.
+Proof. exact linearization_error_is_a_bound. Qed.
+Print Assumptions C16_linearization_error_is_a_bound.
+(* ... for ANY bound M of the second differences, over the reals *)
+Theorem C16_chord_deviation_bound :
+  forall (v : list R) (M s : R), (2 <= List.length v)%nat ->
+  (forall j, (j + 3 <= List.length v)%nat -> (Rabs (nth j v 0 - 2 * nth (S j) v 0 + nth (S (S j)) v 0) <= M)%R) ->
+  (0 <= s <= 1)%R ->
+  (Rabs (bernstein ROps v (1 - s) s - ((1 - s) * hd 0 v + s * last v 0)) <= M * INR (List.length v - 1) * (INR (List.length v - 1) - 1) / 8)%R.
+Proof. exact linearization_bound. Qed.
+Print Assumptions C16_chord_deviation_bound.
